@@ -105,6 +105,9 @@ def run(rep: Report, tier: str) -> None:
         rep.check(ok, ra, JP, gy.qualname, "a written transaction inserts one row, fills it, and advances the row by one", f"a path of the row loop inserts {len(inserts)} row(s), writes {len(cells)} cells and leaves row_index = {show(fin) if fin else None}", loc(row_loop))
     if n_written == 0:
         raise AnalysisError("no completing path of the row loop found")
+    from ..stale import check_rows_fresh
+
+    check_rows_fresh(rep, ra, norm, gy, row_loop, "JP year sheet rows")
 
     # ---------------------------------------------------------------- C20.b
     rb = rep.rule("C20.b", "year groups are processed in ascending year order", floor=1)
